@@ -603,10 +603,24 @@ class _Gen:
                 s.notes.setdefault('dups', []).append(d.uid)
             elif f.rebind and d.kind == 'var' and r.random() < .35:
                 items.append(Item(kind='dup', members=[self.make_dup(d, False)], name=d.name, uid=d.uid))
-            if f.rebind and d.kind in ('class', 'func') and r.random() < .1:
+            if f.rebind and d.kind == 'class' and not isinstance(d, type(None)) and items and items[-1] is d and r.random() < .12:
+                # the name was imported (a fallback with another exception-ness) before the class statement defines it; a subclass follows
+                fb = 'KeyError' if not (d.bases and d.bases[0] in ('Exception', 'ValueError', 'KeyError', 'LookupError', 'OSError')) else 'dict'
+                items.insert(len(items) - 1, Item(kind='raw', text=f'from builtins import {fb} as {d.name}'))
+                su = self.new_uid()
+                items.append(Item(kind='raw', name=f'AfterImport{su}', text=f'class AfterImport{su}({d.name}):\n    """Derives from the class, not from what had been imported."""'))
+            elif f.rebind and d.kind in ('class', 'func') and r.random() < .1:
                 # the name held a plain value before the definition: the definition is what the interpreter ends up with
                 items.insert(len(items) - 1 - (1 if items[-1].kind == 'dup' else 0), Item(kind='raw', text=f'{d.name} = {r.choice(["0", "None", "[]"])}'))
         items.extend(deferred)
+        if f.rebind and r.random() < .2 and not s.notes.get('has_overload'):
+            s.notes['has_overload'] = True       # (once per project: a module that star-imports this one must not define the name again)
+            # a decorator of the project that merely has the name of a typing helper
+            ou = self.new_uid()
+            items.append(Item(kind='raw', name=f'ovuser{ou}', text=(
+                f'def overload(f):\n    return f\n@overload\ndef ovuser{ou}(a):\n    """First registration w{ou}."""\n'
+                f'@overload\ndef ovuser{ou}(a, b=1):\n    """Last registration w{ou}, the one that stays."""\n'
+                f'class OvHost{ou}:\n    @overload\n    def meth(self):\n        """Documented method w{ou}."""')))
         if f.odd_names and r.random() < .2:
             # two classes whose qualified names differ in case only (a class and its lower-case compatibility subclass)
             cls_names = [n for n, _, k_ in exports if k_ == 'class' and n != n.lower() and not any(e[0] == n.lower() for e in exports)]
